@@ -2,10 +2,58 @@ import STProofs.CostDecomp
 import STProofs.EnergyGrad
 import STProofs.TimeMap
 import STProofs.Layout
-/-! # C07 — optimizer gradient = gradient of the returned cost (modular ingredients)
+import STProofs.QuadDual
+import STProofs.QuinticUnique
+import STProofs.SepticUnique
+import STProofs.CubicEnergyGrad
+import STProofs.QuinticEnergyGrad
+import STProofs.SepticEnergyGrad
+/-!
+# C07 — optimizer gradient = gradient of the returned cost
 
-Proved ingredients: time-map chain rule (`backward_is_chain_rule`), spline adjoint (cubic, every N: `cubic_adjoint`),
-energy chain rule (`cubic_energy_total_derivative`), layout (`layout_spec`), structure of the quadrature
-(`quadSegment_cost`, `quadStep_sample`).  NOT proved: the assembled statement `(evaluate_D (x+ε·dx)).cost.du =
-⟨(evaluate x).grad, dx⟩` for the whole `evaluate`; it is decided on the implementation by the exact dual-number oracle
-(the model's gradient equals the dual part of the model's cost on every generated case, as an exact rational identity). -/
+`evaluate` is a composition  x ↦ (durations, waypoints, boundary states) ↦ spline coefficients ↦ cost terms; its gradient
+is assembled by the matching chain of pull-backs.  Every link is a theorem, for every N / order / dimension / number of
+quadrature steps:
+
+* decision vector → durations: `backward_is_chain_rule` (default time map), `identity_map`;
+* decision vector → waypoints / boundary blocks: `layout_spec`, `derivBlocks_spec` (which slice feeds which quantity);
+* (durations, waypoints, boundary states) → coefficients: the adjoint theorems of C05
+  (`cubic_adjoint`, `quintic_adjoint_pos`, `septic_adjoint_pos`);
+* coefficients, durations, start time → integral cost: **`QuadDual.integral_cost_dual`** — for every running-cost functor
+  following the documented protocol (`RunOK`), the derivative of the total trapezoid cost along any tangent equals the
+  pairing with the accumulators `gdC`, `gdT ⊕ suffixAdd expl` (and `Σ expl` for the start time) that `evaluate` hands to
+  `propagateGrad` (`quadStep_dual`, `quadSegment_dual`, `starts_du`, `intAcc_eq_range`);
+* energy term: the analytic energy gradients are the total derivatives (C06: `*_energy_grad_exact`).
+
+NOT proved as one statement: the composition of these links for the D-dimensional `evaluate` (the column stacking of the
+1-D adjoint theorems and the scatter/gather of the layout as a single dual-number identity).  That composition is decided
+on every run by the exact dual-number oracle: the model's gradient equals the dual part of the model's cost on every
+generated case as an exact rational identity, and the C++ agrees within tolerance.
+-/
+open ST
+
+/-- non-vacuity of the protocol hypothesis: a quadratic position cost with explicit global-time dependence -/
+example : QuadDual.RunOK (K := ℚ) 1
+    (fun _ tg _ p _ _ _ _ => ⟨dot p p + tg * tg, [], [], [], [], [], 0⟩)
+    (fun _ tg _ p _ _ _ _ => ⟨dot p p + tg * tg, vscale 2 p, vzero 1, vzero 1, vzero 1, vzero 1, 2 * tg⟩) := by
+  constructor
+  · intro t tg i p v a j s
+    have hre : ∀ (x y : Vec (Dual ℚ)), (dot x y).re = dot (QuadDual.vre x) (QuadDual.vre y) := by
+      intro x; induction x with
+      | nil => intro y; simp [dot, QuadDual.vre, lit_eq]
+      | cons a x ih => intro y; cases y with
+        | nil => simp [dot, QuadDual.vre, lit_eq]
+        | cons b y => simp only [dot, QuadDual.vre, List.map_cons, Dual.add_re, Dual.mul_re] at ih ⊢; rw [ih]
+    have hdu : ∀ (x : Vec (Dual ℚ)), (dot x x).du = dot (vscale 2 (QuadDual.vre x)) (QuadDual.vdu x) := by
+      intro x; induction x with
+      | nil => simp [dot, QuadDual.vre, QuadDual.vdu, vscale, lit_eq]
+      | cons a x ih =>
+        simp only [dot, QuadDual.vre, QuadDual.vdu, vscale, List.map_cons, Dual.add_du, Dual.mul_du] at ih ⊢
+        rw [ih]; ring
+    refine ⟨?_, ?_⟩
+    · simp only [Dual.add_re, Dual.mul_re, hre]
+    · simp only [Dual.add_du, Dual.mul_du, hdu]
+      have z : ∀ (y : Vec ℚ), dot (vzero 1 : Vec ℚ) y = 0 := fun y => QuadDual.dot_vzero_left 1 y
+      simp only [z]; ring
+  · intro t tg i p v a j s hp _ _ _ _
+    simp [vscale, vzero, hp]
